@@ -41,6 +41,22 @@ def tab2Rows {α} (X : Arr3 α) : List (List α) := X.map List.flatten
 /-- the panel a 2-D table holds when read back: one variable whose series is the whole row -/
 def panelOfRows {α} (rows : List (List α)) : Arr3 α := rows.map (fun r => [r])
 
+/-- `≤` on (name, column) pairs: by name, in the order `lt` that `pivot` sorts variables by -/
+def pairLE {ν β : Type} (lt : ν → ν → Bool) (p q : ν × β) : Bool := !lt q.1 p.1
+
+/-- the variables of a panel as (name, [series of instance 0, 1, …]) blocks, sorted by name -/
+def sortedVars {ν α : Type} (lt : ν → ν → Bool) (names : List ν) (X : Arr3 α) :
+    List (ν × List (List α)) :=
+  isortBy (pairLE lt) (names.zip (transposeW (nCols X) X))
+
+/-- the variable names in sorted order … -/
+def sortVarsNames {ν α : Type} (lt : ν → ν → Bool) (names : List ν) (X : Arr3 α) : List ν :=
+  (sortedVars lt names X).map (·.1)
+
+/-- … and the panel with its variables rearranged accordingly (every name keeps its data) -/
+def sortVarsPanel {ν α : Type} (lt : ν → ν → Bool) (names : List ν) (X : Arr3 α) : Arr3 α :=
+  transposeW X.length ((sortedVars lt names X).map (·.2))
+
 /-- intrinsic well-formedness of a nested frame that holds an `n × c × t` panel in cells of
 container kind `k`: distinct labels, `c` columns of `n` cells, every cell a series of length `t` -/
 def WFNested {ν α} (n c t : Nat) (k : Bool) (N : Nested ν α) : Prop :=
